@@ -9,11 +9,13 @@
 // empty separator / pattern leaves the text whole; termination = per-case watchdog + allocation budget
 // (single request <= 64 KiB, <= ALLOC_CAP allocations per call).
 #define VF_MAIN_TU
+#include "early.h"
 #include "verif.h"
 #include "alloc.h"
 #include "ref_slice.h"
 #include "longpat.h"
 #include "st_string.h"
+#include "early_battery.h"
 
 using vf::Ctx;
 using vf::strf;
@@ -626,6 +628,7 @@ static void build(vf::Plan &plan, const vf::Opts &o)
                               });
         st.case_timeout_s = 10;
     }
+    vf_early::add_stage(plan);
 }
 
 VF_MAIN("C09", build)
